@@ -273,6 +273,7 @@ def run_check(modname, tier, seed, canary=None, quiet=False):
     inflight = {}
     vflight = set()
     timed_out = False
+    early = False
     try:
         while pending or inflight:
             while pending and len(inflight) < NPROC * 2:
@@ -313,6 +314,10 @@ def run_check(modname, tier, seed, canary=None, quiet=False):
                     pending.append((task, st, nb, 100000))
             if time.time() > deadline:
                 timed_out = True
+                break
+            if canary is not None and (failed or any(True for fu in vflight if fu.done() and fu.result()[2])):
+                # canary runs only need one reproducing witness: stop exploring early
+                early = True
                 break
         for fu in list(vflight):
             n, bad, viol = fu.result()
@@ -399,7 +404,7 @@ def run_check(modname, tier, seed, canary=None, quiet=False):
             )
             lines.append("VIOLATION property=%s replay=%s" % (pid, rp))
             lines.append("  key=%s %s" % (v["key"], v["detail"][:300].replace("\n", " | ")))
-    exhaustive = not nonexh and not errors and not timed_out
+    exhaustive = not nonexh and not errors and not timed_out and not early
     problems = []
     if errors:
         problems.append("harness errors: %s" % errors[:3])
